@@ -29,6 +29,12 @@ var currentClassBs bs_domain.ClassBadSmellInfo
 func NewBadSmellListener() *BadSmellListener {
 	currentClz = ""
 	currentPkg = ""
+	currentClzType = ""
+	imports = nil
+	fields = make(map[string]string)
+	localVars = make(map[string]string)
+	formalParameters = make(map[string]string)
+	currentClassBs = bs_domain.ClassBadSmellInfo{}
 	methods = nil
 	methodCalls = nil
 	currentClzImplements = nil
